@@ -1490,6 +1490,9 @@ func (c *ControlPlane) RebuildReloadDatapath() error {
 	if err := clearReloadDomainRoutingMap(c.core.bpf.Load()); err != nil {
 		return fmt.Errorf("rebuild clearReloadDomainRoutingMap: %w", err)
 	}
+	// The table is empty now but this generation's tracker still lists what it
+	// wrote earlier; forget it so that the replay below writes every entry again.
+	c.core.domainRouting.reset()
 	cache := c.CloneDnsCache()
 	c.pendingDnsReloadCache = cache
 	c.replayDnsReloadCache()
